@@ -17,6 +17,7 @@ pub mod c16;
 pub mod c17;
 pub mod c18;
 pub mod c19;
+pub mod c20;
 
 use crate::ctx::Ctx;
 
@@ -76,6 +77,7 @@ pub fn run(id: &str, ctx: &mut Ctx) -> bool {
         "C17" => c17::run(ctx),
         "C18" => c18::run(ctx),
         "C19" => c19::run(ctx),
+        "C20" => c20::run(ctx),
         _ => return false,
     }
     true
@@ -126,6 +128,7 @@ pub fn replay_value(id: &str, ctx: &mut Ctx, r: &serde_json::Value) -> bool {
         "C17" => c17::replay(ctx, r),
         "C18" => c18::replay(ctx, r),
         "C19" => c19::replay(ctx, r),
+        "C20" => c20::replay(ctx, r),
         _ => {
             let _ = (ctx, r);
             false
